@@ -55,7 +55,8 @@ TVStep == /\ l <= Len(Rec) /\ Rec[l].ev = "step"
                          THEN CASE e.op = "set_mem_table" -> SeqToSet(lt.rids) [] e.op = "add_mem_reg" -> table \cup {lt.rid} [] OTHER -> RemResult(table, lt.rid)
                          ELSE table
              /\ upd' = e.updates
-             /\ dead' = (dead \/ e.status \notin {"ok", "none"})
+             \* a new connection to the same daemon (handler state persists) makes the session usable again
+             /\ dead' = IF e.op = "reconnect" THEN e.status # "ok" ELSE (dead \/ e.status \notin {"ok", "none"})
           /\ judged' = judged + 1 /\ l' = l + 1 /\ UNCHANGED <<pool, cur>>
 TVOther == /\ l <= Len(Rec) /\ Rec[l].ev \in {"end", "threads"} /\ l' = l + 1 /\ UNCHANGED <<table, pool, upd, viol, judged, cur, dead>>
 TVNext == TVReset \/ TVStep \/ TVOther
